@@ -127,7 +127,8 @@ pub fn run(tier: &str, seed: u64, replay: Option<String>) -> i32 {
     let n_shipped = files.len();
     let gen_base = rng.next_u64() % 1_000_000;
     files.extend(corpus::generated((0..if thorough { 40 } else { 8 }).map(|k| gen_base + k)));
-    let gen_intact = corpus::generated((0..if thorough { 3000 } else { 250 }).map(|k| gen_base + 1000 + k));
+    let mut gen_intact = corpus::generated((0..if thorough { 3000 } else { 250 }).map(|k| gen_base + 1000 + k));
+    gen_intact.extend(corpus::generated((0..6).map(|k| crate::projgen::SELF_CONTAINED_FROM + k)));
 
     let mut jobs: Vec<DJob> = vec![];
     for f in &files {
